@@ -99,7 +99,7 @@ impl Property for C04 {
         "exploration"
     }
     fn rule(&self) -> String {
-        "A case = 1-3 sessions connected to one secure server (fresh token each), per session and direction a pool of 300-1500 genuine datagrams - payloads produced by generate_payload_packet and, in some cases, the endpoint's own keep-alives interleaved with them (same counter, same replay window) - with the send counter preset to natural, 300, 256k-3, 2^32-5, 2^56-3, 2^63 or 2^64-5001; then a history of presentations whose sequence is chosen relative to the highest accepted one (next, max+k, max, max-1, max-255, max-256, max-257, max-256k, random) and whose form is genuine first-time, replay, bit-flipped / truncated / extended / prefix-modified copy, re-addressed to another session's endpoint or source address, presented in the other direction, or re-sealed with the session's own key under another protocol id or with another session's key. Model per session and direction = set of accepted sequences and their maximum (initialised with the replay-protected handshake packets). Oracles: a payload surfaces only from an unmodified genuine datagram of that session and direction, equals the bytes given to generate_payload_packet, carries that session's client id, and no datagram surfaces twice; an unmodified genuine datagram presented for the first time while less than 256 behind the highest accepted sequence must surface, also after rejected forgeries carrying the same sequence. A fifth of the cases instead drive the replay window structure itself (hook re-export) with 50-1500 sequence numbers chosen around the highest accepted one at magnitudes up to 2^64-2001 and compare already_received with the reference rule (reject what was accepted before, accept what is fresh and less than 256 behind; a fresh sequence further behind may go either way and is remembered if accepted). Non-trivial: a replay of an accepted datagram, presentations exactly 255 and 256 behind, and a forged copy presented before its genuine original. Distinct = hash of the decoded operation trace.".into()
+        "A case = 1-3 sessions connected to one secure server (fresh token each; in half of the cases one or two other clients connected before / between them and left again - kicked, or by their own disconnect packet - so the sessions live behind free slots of the server's table), per session and direction a pool of 300-1500 genuine datagrams - payloads produced by generate_payload_packet and, in some cases, the endpoint's own keep-alives interleaved with them (same counter, same replay window) - with the send counter preset to natural, 300, 256k-3, 2^32-5, 2^56-3, 2^63 or 2^64-5001; then a history of presentations whose sequence is chosen relative to the highest accepted one (next, max+k, max, max-1, max-255, max-256, max-257, max-256k, random) and whose form is genuine first-time, replay, bit-flipped / truncated / extended / prefix-modified copy, re-addressed to another session's endpoint or source address, presented in the other direction, or re-sealed with the session's own key under another protocol id or with another session's key. Model per session and direction = set of accepted sequences and their maximum (initialised with the replay-protected handshake packets). Oracles: a payload surfaces only from an unmodified genuine datagram of that session and direction, equals the bytes given to generate_payload_packet, carries that session's client id, and no datagram surfaces twice; an unmodified genuine datagram presented for the first time while less than 256 behind the highest accepted sequence must surface, also after rejected forgeries carrying the same sequence. A fifth of the cases instead drive the replay window structure itself (hook re-export) with 50-1500 sequence numbers chosen around the highest accepted one at magnitudes up to 2^64-2001 and compare already_received with the reference rule (reject what was accepted before, accept what is fresh and less than 256 behind; a fresh sequence further behind may go either way and is remembered if accepted). Non-trivial: a replay of an accepted datagram, presentations exactly 255 and 256 behind, and a forged copy presented before its genuine original. Distinct = hash of the decoded operation trace.".into()
     }
     fn assumptions(&self) -> Vec<String> {
         vec![
@@ -112,23 +112,58 @@ impl Property for C04 {
         PbtCfg { cases: tier.pick(30_000, 400_000), max_len: tier.pick(1200, 4000), shrink_ms: 120_000 }
     }
     fn required_labels(&self) -> Vec<&'static str> {
-        vec!["replay_of_accepted", "behind_255", "behind_256", "forged_before_genuine", "genuine_after_forgery", "readdressed", "other_protocol", "other_key", "wide_sequence", "out_of_order_accept", "replay_window_model", "keepalive_interleaved", "keepalive_presented"]
+        vec!["replay_of_accepted", "behind_255", "behind_256", "forged_before_genuine", "genuine_after_forgery", "readdressed", "other_protocol", "other_key", "wide_sequence", "out_of_order_accept", "replay_window_model", "keepalive_interleaved", "keepalive_presented", "free_slot_before_session"]
     }
     fn run_choices(&self, ctx: &mut Ctx) -> Outcome {
         if ctx.src.chance(50) {
             return replay_window_case(ctx);
         }
-        let mut nw = NetWorld::new(ctx.src.u16() as u64);
-        nw.servers.push(mk_server(0, 1, PROTO, 4, nw.now, true));
+        let seed = ctx.src.u16() as u64;
+        let mut nw = NetWorld::new(seed);
+        nw.servers.push(mk_server(0, 1, PROTO, 6, nw.now, true));
         let sessions = 1 + ctx.src.below(3);
         let pool_n = ctx.tier.pick(300 + ctx.src.below(400), 400 + ctx.src.below(1100));
         let dt = Duration::from_millis(20);
-        for i in 0..sessions {
-            let t = nw.mint(&TokenSpec { client_id: 90 + i as u64, user: i as u64, expire_seconds: 600, timeout: -1, addrs: vec![server_addr(0)], key: key(1), protocol: PROTO });
+        // In half of the cases other clients connected before / between the sessions of the case and have left again (kicked by the
+        // server, or by their own disconnect packet) when the history starts: the sessions of the case then live behind free slots of
+        // the server's table.
+        let ghosts = match (seed >> 5) % 4 {
+            0 | 1 => 0,
+            2 => 1,
+            _ => 2,
+        };
+        for i in 0..sessions + ghosts {
+            let id = if i < sessions { 90 + i as u64 } else { 70 + (i - sessions) as u64 };
+            let t = nw.mint(&TokenSpec { client_id: id, user: i as u64, expire_seconds: 600, timeout: -1, addrs: vec![server_addr(0)], key: key(1), protocol: PROTO });
             nw.add_client(t, client_addr(i), i as u64);
+        }
+        let mut order: Vec<usize> = vec![];
+        for i in 0..sessions.max(ghosts) {
+            if i < ghosts {
+                order.push(sessions + i);
+            }
+            if i < sessions {
+                order.push(i);
+            }
+        }
+        for &i in &order {
             if !nw.handshake(0, i, dt, 20) {
                 return Err(Fail::new("stage", "honest handshake failed"));
             }
+        }
+        for g in 0..ghosts {
+            let gid = 70 + g as u64;
+            if (seed >> 7) & 1 == g as u64 & 1 {
+                nw.server_disconnect(0, gid);
+            } else if let Some(did) = nw.client_disconnect(sessions + g) {
+                let d = nw.pool[did].clone();
+                nw.server_recv(0, d.src, &d.bytes);
+            }
+            if nw.servers[0].server.is_client_connected(gid) {
+                // whether a disconnect packet is honoured is not this property's business
+                nw.server_disconnect(0, gid);
+            }
+            ctx.label("free_slot_before_session");
         }
         // lanes[session][to_client]
         let mut lanes: Vec<[Lane; 2]> = vec![];
